@@ -41,6 +41,8 @@ pub enum Act {
     Loan { vault: String, amount: Uint128, script: Vec<Step> },
     /// send an asset to some address (e.g. the router, to let it repay)
     Send { asset: AssetInfo, to: String, amount: Uint128 },
+    /// call the vault's internal callback (AfterTrade) as the borrower, from inside the borrower's own loan
+    ForgeAfterTrade { vault: String, old_balance: Uint128, loan_amount: Uint128 },
 }
 
 #[cw_serde]
@@ -176,6 +178,12 @@ fn act_msgs(deps: Deps, env: &Env, act: &Act) -> StdResult<Vec<CosmosMsg>> {
         }
         .into()],
         Act::Send { asset, to, amount } => vec![send_asset(asset, to, *amount)],
+        Act::ForgeAfterTrade { vault, old_balance, loan_amount } => vec![WasmMsg::Execute {
+            contract_addr: vault.clone(),
+            msg: to_json_binary(&VaultExec::Callback(white_whale_std::vault_network::vault::CallbackMsg::AfterTrade { old_balance: *old_balance, loan_amount: *loan_amount }))?,
+            funds: vec![],
+        }
+        .into()],
     })
 }
 
